@@ -390,7 +390,9 @@ def run(ctx):
     dist = {"tables": 0, "shank_map": 0, "geom_map": 0, "no_map": 0, "split": 0, "n_le_12": 0, "n_ge_276": 0,
             "already_sorted": 0, "gen": {g: 0 for g in GEN_CODE}, "kinds": {}, "subset_offset": 0,
             "trace_header": 0, "adc_shifts": 0, "rcxy": 0, "map_texts": 0, "map_texts_malformed": 0,
-            "map_texts_valueerror": 0, "map_texts_ambiguous_skipped": 0}
+            "map_texts_valueerror": 0, "map_texts_ambiguous_skipped": 0, "npultra_geom_maps": 0,
+            "file_texts": 0, "file_texts_raise": 0, "file_texts_nogeometry": 0, "file_texts_crlf": 0,
+            "file_texts_duplicate_map": 0}
     nontrivial = set()
     samples = []
     evaluations = 0
@@ -530,6 +532,8 @@ def run(ctx):
         # ---------------- trace_header / split_trace_header / adc_shifts / rc2xy / xy2rc ----------------
         evaluations += run_layouts(ctx, inputs, outputs, descr, dist, tdir)
         evaluations += run_parser(ctx, inputs, outputs, descr, dist)
+        evaluations += run_npultra_geom(ctx, inputs, outputs, descr, dist, tdir)
+        evaluations += run_files(ctx, inputs, outputs, descr, dist, tdir)
         common.correspondence(ctx, PROP, HEADER, inputs, outputs, lambda i: descr[i], n_kernel=60)
     finally:
         shutil.rmtree(tdir, ignore_errors=True)
@@ -767,11 +771,183 @@ def run_parser(ctx, inputs, outputs, descr, dist):
     return nev
 
 
+def run_npultra_geom(ctx, inputs, outputs, descr, dist, tdir):
+    """F-C08-b: NPultra site tables in the geometry-map encoding (x = 6*col, z = 6*row)."""
+    rng = ctx.rng
+    nev = 0
+    tables = [[natural("NPultra", c) + (1,) for c in range(384)]]
+    for _ in range(6 if ctx.thorough() else 3):
+        tables.append(gen_sites(rng, "NPultra", rng.randrange(1, 20), "random"))
+    for sites in tables:
+        ref = make_case(rng, 800000 + nev, "NPultra", sites, 0, None, kind="npultra_geom")
+        case = make_case(rng, 800100 + nev, "NPultra", sites, 0, None, kind="npultra_geom")
+        case["enc"] = 1
+        case["entries"] = [[s[0], 6 * s[1], 6 * s[2], s[3]] for s in sites]
+        try:
+            o_ref, o = run_geometry(ref, tdir, rng), run_geometry(case, tdir, rng)
+        except Exception as e:
+            ctx.fail("NPultra geometry raised %r" % (e,), describe(case), {"clause": "exception"})
+            continue
+        same = all(o[k] == o_ref[k] for k in (("gfm", False), ("gfm", True)))
+        if same:
+            continue            # the defect has been repaired: the property holds here, nothing to compare
+        ctx.fail("NPultra: the geometry-map encoding gives another geometry than the shank-map encoding "
+                 "(rows %s...)" % (o[("gfm", False)][0]["row"][:3],), describe(case),
+                 {"clause": "encodings", "gen": "NPultra"})
+        for srt in (False, True):
+            g, inds = o[("gfm", srt)]
+            offgrid = BAD in g["row"] or BAD in g["col"]
+            inputs.append(enc_case_input(case, srt))
+            outputs.append([0] if offgrid else [1] + flat_geom(g) + inds)
+            descr.append(describe(case, srt))
+            nev += 1
+        dist["npultra_geom_maps"] += 1
+    return nev
+
+
+VERSION_LINES = {
+    "NP1": [["typeEnabled=imec"], ["imDatPrb_type=0"], ["imDatPrb_type=0", "imDatPrb_port=1", "imDatPrb_slot=2"]],
+    "NP2.1": [["imDatPrb_type=21"], ["imDatPrb_type=1030"]],
+    "NP2.4": [["imDatPrb_type=24"], ["imDatPrb_type=2013"]],
+    "NPultra": [["imDatPrb_type=1100"]],
+}
+FILLER = ["typeThis=imec", "imSampRate=30000", "fileTimeSecs=1.5", "imAiRangeMax=0.6", "userNotes=",
+          "imDatPrb_sn=19011116954", "acqApLfSy=384,0,1", "~imroTbl=(0,384)(0 0 0 500 250 1)", "gateMode=Immediate",
+          "snsSaveChanSubset=0:3,384", "imMaxInt=512", "fileName=D:/data/x_g0_t0.imec0.ap.bin"]
+
+
+def run_files(ctx, inputs, outputs, descr, dist, tdir):
+    """FILE TEXT -> geometry: small .meta files written byte by byte (line order, line ends, tilde keys,
+    repeated keys, both map keys, NP2.4_shank, missing version, malformed lines), read by read_meta_data and
+    geometry_from_meta / read_geometry; the model receives the same text (C09 reader + tokeniser + geometry)."""
+    import spikeglx
+    rng = ctx.rng
+    nev = 0
+    for k in range(400 if ctx.thorough() else 45):
+        gen = rng.choice(["NP1", "NP1", "NP2.1", "NP2.4", "NP2.4", "NPultra"])
+        lines = []
+        has_version = rng.random() < 0.9
+        if has_version:
+            lines += rng.choice(VERSION_LINES[gen])
+        mode = rng.choice(["table", "table", "table", "table", "dup", "both", "nomap", "empty", "bad"])
+        enc = 0 if gen == "NPultra" else rng.choice([0, 1])
+        key = ["snsShankMap", "snsGeomMap"][enc]
+        tilde = rng.choice(["~", ""])
+        n = rng.randrange(1, 10)
+        sites = gen_sites(rng, gen, n, rng.choice(["random", "fewrows", "highrows"]))[:n]
+        entries = [list(geom_entry(gen, s_)) if enc == 1 else list(s_) for s_ in sites]
+        mapline = tilde + map_text(gen, enc, entries).lstrip("~")
+        split = None
+        if mode in ("table", "dup", "both", "bad"):
+            lines.append(mapline)
+        if mode == "dup":       # an earlier line with the same key and another table: the last one wins
+            other = gen_sites(rng, gen, rng.randrange(1, 6), "random")
+            ol = rng.choice(["~", ""]) + map_text(gen, enc, [list(geom_entry(gen, s_)) if enc == 1 else list(s_)
+                                                           for s_ in other]).lstrip("~")
+            lines.insert(0, ol)
+            dist["file_texts_duplicate_map"] += 1
+        if mode == "both" and gen != "NPultra":     # both keys: the shank map is used
+            o_enc = 1 - enc
+            lines.append(rng.choice(["~", ""]) + map_text(
+                gen, o_enc, [list(geom_entry(gen, s_)) if o_enc == 1 else list(s_) for s_ in sites]).lstrip("~"))
+        if mode == "empty":
+            lines.append(tilde + map_text(gen, enc, []).lstrip("~"))
+        if gen == "NP2.4" and mode in ("table", "dup") and rng.random() < 0.5:
+            split = rng.choice(sorted({s_[0] for s_ in sites}))
+            lines.append("NP2.4_shank=%d" % split)
+        lines += rng.sample(FILLER, rng.randrange(0, 6))
+        if mode != "dup":
+            rng.shuffle(lines)
+        else:                   # keep the relative order of the two map lines
+            first = lines.pop(0)
+            rng.shuffle(lines)
+            lines.insert(rng.randrange(0, lines.index(mapline) + 1), first)
+        if mode == "bad":
+            lines.insert(rng.randrange(len(lines) + 1), rng.choice(
+                ["a line without the sign", "NP2.4_shank=abc" if gen == "NP2.4" else "no sign here",
+                 tilde + key + "=(1,2,3)(0:1::1)", tilde + key + "=12"]))
+        eol = rng.choice(["\n", "\n", "\r\n"])
+        text = eol.join(lines) + (eol if rng.random() < 0.8 else "")
+        dist["file_texts_crlf"] += eol == "\r\n"
+        f = tdir / ("t%d.ap.meta" % k)
+        f.write_bytes(text.encode("ascii"))
+        d = {"fn": "geometry_from_meta(read_meta_data(file))", "gen": gen, "text": text}
+        res = {}
+        for srt in (False, True):
+            try:
+                with warnings.catch_warnings():
+                    warnings.simplefilter("ignore")
+                    md = spikeglx.read_meta_data(f)
+                    g, inds = spikeglx.geometry_from_meta(md, return_index=True, sort=srt)
+                    rg = spikeglx.read_geometry(f) if srt else None
+            except Exception as e:
+                res[srt] = ("raise", repr(e))
+                out = [0]
+            else:
+                if g is None:
+                    out = [2]
+                    res[srt] = ("none", None)
+                else:
+                    cg = canon_geom(g, gen)
+                    offgrid = BAD in cg["row"] or BAD in cg["col"]
+                    out = [3] if offgrid else [1] + flat_geom(cg) + ints(inds)
+                    res[srt] = ("geom", cg, ints(inds))
+                    if srt and canon_geom(rg, gen) != cg:
+                        ctx.fail("read_geometry(file) differs from geometry_from_meta(read_meta_data(file))", d,
+                                 {"clause": "entry_points"})
+            inputs.append([5, 1 if srt else 0] + [ord(c) for c in text])
+            outputs.append(out)
+            descr.append(dict(d, sort=srt))
+            nev += 1
+        f.unlink()
+        dist["file_texts"] += 1
+        dist["file_texts_raise"] += res[False][0] == "raise"
+        dist["file_texts_nogeometry"] += res[False][0] == "none"
+        # oracle: a well-formed file with a version and a table describes exactly that table
+        if has_version and mode in ("table", "dup", "both") and not (gen == "NPultra" and enc == 1):
+            if res[False][0] != "geom":
+                ctx.fail("a well-formed meta file with a site table gives %s" % (res[False][:2],), d,
+                         {"clause": "file_text"})
+            else:
+                cg = res[False][1]
+                keep = [s_ for s_ in sites if split is None or s_[0] == split]
+                got = list(zip(cg["shank"], cg["col"], cg["row"], cg["flag"], cg["x"], cg["y"]))
+                if got != [expected_site(gen, s_) for s_ in keep]:
+                    ctx.fail("the geometry read from the file text does not list the sites of its table", d,
+                             {"clause": "file_text"})
+    return nev
+
+
 def replay(ctx, data):
     inp = data.get("input") or (data.get("correspondence_disagreements") or [{}])[0].get("input")
     if not inp:
         print(json.dumps(data, indent=1)[:3000])
         return 1
+    if inp.get("fn") == "geometry_from_meta(read_meta_data(file))":
+        import spikeglx
+        tdir = common.tmpdir("C08_")
+        try:
+            f = tdir / "r.ap.meta"
+            f.write_bytes(inp["text"].encode("ascii"))
+            srt = bool(inp.get("sort", True))
+            try:
+                g, inds = spikeglx.geometry_from_meta(spikeglx.read_meta_data(f), return_index=True, sort=srt)
+                if g is None:
+                    out = [2]
+                else:
+                    cg = canon_geom(g, inp["gen"])
+                    out = [3] if (BAD in cg["row"] or BAD in cg["col"]) else [1] + flat_geom(cg) + ints(inds)
+            except Exception as e:
+                print("implementation raised", repr(e))
+                out = [0]
+            print("file text:", repr(inp["text"])[:1500])
+            print("implementation (flat):", out[:60])
+            ids = common.coq_mismatches(PROP, HEADER, [common.flat_cases_term(
+                0, [5, 1 if srt else 0] + [ord(c) for c in inp["text"]], out)])
+            print("kernel-evaluated model agrees with implementation:", not ids)
+            return 1 if ids else 0
+        finally:
+            shutil.rmtree(tdir, ignore_errors=True)
     if inp.get("fn") == "_map_channels_from_meta":
         out = parse_impl(inp["text"], inp["key"])
         print("text:", repr(inp["text"]))
